@@ -17,7 +17,11 @@ class Budget(Exception):
 
 
 class Explorer:
-    def __init__(self, pre=(), max_paths=100000, timeout_ms=20000):
+    def __init__(self, pre=(), max_paths=100000, timeout_ms=20000, variables=None, seed=0):
+        self.variables = list(variables) if variables is not None else None
+        import random as _r
+        self.rng = _r.Random(seed)
+        self.n_sampled = 0
         self.pre = list(pre)
         self.stack = []  # [value_taken, other_branch_done]
         self.pos = 0
@@ -31,7 +35,30 @@ class Explorer:
         self.solver_s = 0.0
         self.unknown = 0
 
+    def _sample(self, cond):
+        """cheap witness search before calling the solver: evaluate pre AND pc AND cond at seeded random rational points"""
+        if not self.variables:
+            return False
+        goal = z3.And(*(self.pre + self.pc + [cond]))
+        for _ in range(24):
+            subs = []
+            for v in self.variables:
+                if v.sort().kind() == z3.Z3_INT_SORT:
+                    subs.append((v, z3.IntVal(self.rng.randint(-4, 6))))
+                else:
+                    num = self.rng.randint(1, 9) if self.rng.random() < 0.6 else self.rng.randint(-9, 9)
+                    subs.append((v, z3.RealVal(num) / z3.RealVal(self.rng.choice([1, 2, 3, 5, 7]))))
+            try:
+                if z3.is_true(z3.simplify(z3.substitute(goal, *subs))):
+                    self.n_sampled += 1
+                    return True
+            except z3.Z3Exception:
+                return False
+        return False
+
     def _feasible(self, cond):
+        if self._sample(cond):
+            return True
         self.n_queries += 1
         t = time.time()
         self.solver.push()
